@@ -116,7 +116,14 @@ def run_episodes(binary, progs, scratch, gomaxprocs=1, workers=None, tag='ep', t
             if rest:
                 if started is not None and started in [p['id'] for p in rest]:
                     # the child died inside this episode
-                    crashes.append({'prog': byid[started], 'output': outp[-6000:]})
+                    live = []
+                    if os.path.exists(of + '.live'):
+                        for ln in open(of + '.live'):
+                            try:
+                                live.append(json.loads(ln))
+                            except Exception:
+                                break
+                    crashes.append({'prog': byid[started], 'output': outp[-6000:], 'events': live})
                     rest = [p for p in rest if p['id'] != started]
                 elif pr.returncode != 0 and started is None and not done:
                     raise Inconclusive('episode child failed before running anything:\n' + outp[-3000:])
